@@ -344,6 +344,12 @@ class ComponentLevel2( ComponentLevel1 ):
             s._dsl.all_upblk_reads [ blk ] |= m._dsl.func_reads[u]
             s._dsl.all_upblk_writes[ blk ] |= m._dsl.func_writes[u]
 
+            # A signal that an update_ff block writes through a function
+            # is a flip-flop as well
+            if blk in m._dsl.update_ff:
+              for x in m._dsl.func_writes[u]:
+                x.get_top_level_signal()._dsl.needs_double_buffer = True
+
             for v in m._dsl.func_calls[ u ]:
               if v in caller: # v calls someone else there is a cycle
                 raise InvalidFuncCallError( \
